@@ -32,6 +32,7 @@ static A: alloc::SimAlloc = alloc::SimAlloc;
 extern "C" {
     fn fork() -> i32;
     fn waitpid(pid: i32, status: *mut i32, options: i32) -> i32;
+    fn kill(pid: i32, sig: i32) -> i32;
 }
 
 thread_local! {
@@ -144,6 +145,7 @@ pub fn execute(head: &str, src: Source<'_>, faults: &Faults, layout_seed: u64, o
     alloc::reset(layout_seed, true);
     exec::reset(faults.clone(), o.want_snaps, o.record_dtors, o.c16_markers, if matches!(src, Source::Generate { .. }) { o.dtor_downgrade_p } else { 0 }, layout_seed ^ 0x64746f72);
     report::ctx_begin(head);
+    sh().heartbeat += 1;
     st(St::execs, 1);
     st(St::f_layout_runs, 1);
     let mut issued: Vec<Op> = vec![];
@@ -151,6 +153,7 @@ pub fn execute(head: &str, src: Source<'_>, faults: &Faults, layout_seed: u64, o
     let mut step = 0u32;
     let mut run_op = |op: &Op, issued: &mut Vec<Op>| {
         report::STEP.store(step, Relaxed);
+        sh().heartbeat += 1;
         report::ctx_push_op(&op.text(), step == 0);
         step += 1;
         if o.layout_noise {
@@ -775,14 +778,39 @@ fn batch(a: &Args) -> i32 {
             }
             unsafe { alloc::_exit(0) };
         }
+        // wait with a watchdog: a library call that never returns (a trace that does not
+        // terminate) must not hang the check; it is reported and the batch goes on
         let mut status = 0i32;
-        unsafe { waitpid(pid, &mut status, 0) };
+        let hang_ms = a.num("--hang-ms", 30_000);
+        let (mut last_beat, mut since) = (sh().heartbeat, std::time::Instant::now());
+        let mut hung = false;
+        loop {
+            let r = unsafe { waitpid(pid, &mut status, 1) };
+            if r == pid {
+                break;
+            }
+            std::thread::sleep(std::time::Duration::from_millis(20));
+            let b = sh().heartbeat;
+            if b != last_beat {
+                last_beat = b;
+                since = std::time::Instant::now();
+            } else if since.elapsed().as_millis() as u64 > hang_ms {
+                unsafe { kill(pid, 9) };
+                unsafe { waitpid(pid, &mut status, 0) };
+                hung = true;
+                break;
+            }
+        }
+        if hung {
+            sh().printed = 0;
+            report::emit_raw("hang", "call-did-not-return", "a call into the library did not return within the watchdog period", 0);
+        }
         let exited = status & 0x7f == 0;
         let code = (status >> 8) & 0xff;
-        if exited && code == 0 {
+        if !hung && exited && code == 0 {
             break;
         }
-        if exited && code == alloc::EXIT_HARNESS {
+        if !hung && exited && code == alloc::EXIT_HARNESS {
             status_code = 2;
             break;
         }
